@@ -10,11 +10,13 @@ PROPS = {
         level="exploration",
         technique="property-based testing (rapid). Tier A: the nic.Conf values returned by the real generate*Cfg functions of all four datapaths "
                   "are loaded into an independent reference FIB (rules by priority -> table -> longest prefix -> oif/gateway, nic.Setup's ensure/replace semantics) "
-                  "and the routing intent is decided by lookups. Tier B: real Setup/Check/GenericTearDown+Teardown of the policy-route (veth) and exclusive-ENI datapaths "
+                  "and the routing intent is decided by lookups; the emitted sysctls must switch router advertisements off (accept_ra=0) on every IPv6 pod interface that faces the ENI segment "
+                  "(exclusive ENI, ipvlan, vlan), because 'exactly one default route per enabled family' cannot survive an advertisement otherwise. Tier B: real Setup/Check/GenericTearDown+Teardown of the policy-route (veth) and exclusive-ENI datapaths "
                   "in private network namespaces (a veth pair stands in for the ENI), plus the host-side (init namespace) half of the ipvlan datapath "
                   "(real generateENICfg/ContCfg/SlaveLinkCfg + nic.Setup, createSlaveIfNotExist/setupInitNamespace up to the tc filters, real IPvlanDriver.Teardown; "
                   "veths stand in for the ipvl_<eni> slave and the pod link), judged by the kernel's own route lookups (RTM_GETROUTE with iif/src/oif) and by "
-                  "differences of rule/route/link dumps around every teardown",
+                  "differences of rule/route/link dumps around every teardown; after Setup of an IPv6 pod (exclusive ENI, ipvlan) accept_ra is read inside the pod namespace "
+                  "and, once per case, a real router advertisement is sent from the far end of the interface (raw ICMPv6) before the single-default-route check",
         rule="Tier A cases: datapath (policy, ipvlan, exclusive, vlan) x family (v4, v6, dual) x trunk x 1..4 pods with 1..2 interfaces each (MultiNetwork, exactly one carries "
              "DefaultRoute as the daemon guarantees) on 1..2 ENIs (own ENI per interface for exclusive), drawn link indexes (steps up to 70000), addresses in 4- and 16-byte form, "
              "prefix lengths 8..32/8..128, shared or separate subnets, service CIDRs, 0..3 host-stack CIDRs, 0..3 extra routes per interface with/without gateway. "
@@ -39,6 +41,8 @@ PROPS = {
             "policy-route + MultiNetwork (not produced by the daemon): only the outgoing device and table of the per-interface table are checked, not its next hop",
             "tier B teardown mirrors plugin/terway doCmdDel: utils.GenericTearDown on the pod's namespace, then PolicyRoute.Teardown for the policy-route datapath (the CNI has no per-datapath teardown for exclusive ENI); "
             "utils.EnsureHostNsConfig runs before every Setup as in doCmdAdd",
+            "router advertisements: delivery is confirmed by the pod namespace's Icmp6InRouterAdvertisements counter (bounded wait, re-sent while the interface waits for its carrier event); "
+            "an undelivered advertisement is only counted (label ra:not-delivered:*), never judged; the policy-route pod interface faces the node's veth, not the ENI segment, and is not required to ignore advertisements",
             "kernel-generated IPv6 link-local (fe80::/10) and multicast (ff00::/8) routes are left out of the dumps (they appear asynchronously with DAD)",
         ],
         level_text="generated configurations and setup/teardown histories checked against an independent policy-routing evaluator (all four datapaths) and against the running kernel "
